@@ -143,11 +143,160 @@ func (d *distinctEngine) valueDistinct(f *ssa.Function, v ssa.Value, depth int) 
 		return d.callDistinct(f, x, depth)
 	case *ssa.Const:
 		return x.Value == nil // nil slice
+	case *ssa.Slice:
+		// at most one element: x[:1], x[i:i+1] is not recognised, literal {a}
+		if x.High != nil {
+			if h, ok := constInt(x.High); ok && h <= 1 && x.Low == nil {
+				return true
+			}
+		}
+		if vals, ok := sliceLiteral(x); ok && len(vals) <= 1 {
+			return true
+		}
 	}
 	if isEmptySliceBase(v) {
 		return true
 	}
 	return mapKeySlice(f, v) || seenFilterSlice(f, v)
+}
+
+// dedupConstructOnPath: the derivation of the returned list (this function
+// and the module callees whose results flow into it, three levels deep)
+// contains something that removes duplicates -- a map used as a set, a call
+// of common.Unique / Union, slices.Compact*, maps.Keys.  Used only to tell
+// "the documented de-duplication is gone" (violation) from "there is one,
+// in a form the rule cannot verify" (no verdict).  badCompact reports a
+// slices.Compact that is not preceded by a natural sort (it removes adjacent
+// duplicates only).
+func (d *distinctEngine) dedupConstructOnPath(f *ssa.Function, v ssa.Value, depth int, seenF map[*ssa.Function]bool) (found bool, badCompact string) {
+	if f == nil || f.Blocks == nil || depth > 3 {
+		return false, ""
+	}
+	seen := map[ssa.Value]bool{}
+	var walk func(x ssa.Value, dd int)
+	guardedByLookup := func(blk *ssa.BasicBlock) bool {
+		for _, b := range f.Blocks {
+			_, _, ifi := ifSuccs(b)
+			if ifi == nil || !(b == blk || b.Dominates(blk)) {
+				continue
+			}
+			c := resolve(ifi.Cond)
+			if u, ok := c.(*ssa.UnOp); ok && u.Op == token.NOT {
+				c = resolve(u.X)
+			}
+			var lk *ssa.Lookup
+			switch y := c.(type) {
+			case *ssa.Extract:
+				lk, _ = y.Tuple.(*ssa.Lookup)
+			case *ssa.Lookup:
+				lk = y
+			case *ssa.Call:
+				// seen-set helper: register(m, key) bool
+				for _, a := range y.Call.Args {
+					if isMap(a.Type()) {
+						return true
+					}
+				}
+			}
+			if lk != nil && isMap(lk.X.Type()) {
+				return true
+			}
+		}
+		return false
+	}
+	walk = func(x ssa.Value, dd int) {
+		if x == nil || dd > 12 || found && badCompact != "" {
+			return
+		}
+		x = resolve(x)
+		if seen[x] {
+			return
+		}
+		seen[x] = true
+		switch y := x.(type) {
+		case *ssa.Phi:
+			for _, e := range y.Edges {
+				walk(e, dd+1)
+			}
+		case *ssa.Extract:
+			walk(y.Tuple, dd+1)
+		case *ssa.Slice:
+			walk(y.X, dd+1)
+		case *ssa.Call:
+			if builtinName(y) == "append" {
+				if guardedByLookup(y.Block()) {
+					found = true
+				}
+				walk(y.Call.Args[0], dd+1)
+				elems, spread := appendedElems(y)
+				if spread != nil {
+					walk(spread, dd+1)
+				}
+				for _, el := range elems {
+					el = resolve(el)
+					for _, mr := range findMapRanges(f) {
+						if k := mr.key(); k != nil && el == k {
+							found = true // keys of a map are distinct
+						}
+					}
+					for _, sr := range findSliceRanges(f) {
+						if sr.isElem(el) {
+							walk(sr.X, dd+1)
+						}
+					}
+					walk(el, dd+1)
+				}
+				return
+			}
+			if calleeIs(y, modPath+"/common", "Unique") || calleeIs(y, modPath+"/common", "Union") {
+				found = true
+				return
+			}
+			p, n := stdCallName(y)
+			switch {
+			case p == "maps" && n == "Keys", p == "slices" && n == "CompactFunc":
+				found = true
+				return
+			case p == "slices" && n == "Compact":
+				found = true
+				if !sortedCompact(f, y) {
+					badCompact = "slices.Compact at " + d.w.Pos(y.Pos()) + " removes adjacent duplicates only and the list is not sorted before"
+				}
+				return
+			case p == "slices" || p == "maps":
+				for _, a := range y.Call.Args {
+					walk(a, dd+1)
+				}
+				return
+			}
+			if g := calleeOf(y); g != nil && d.w.InModule(g) && g.Blocks != nil && !seenF[g] {
+				seenF[g] = true
+				for _, ret := range returnsOf(g) {
+					if len(ret.Results) > 0 {
+						f2, b2 := d.dedupConstructOnPath(g, ret.Results[0], depth+1, seenF)
+						if f2 {
+							found = true
+						}
+						if b2 != "" {
+							badCompact = b2
+						}
+					}
+				}
+			}
+			for _, a := range y.Call.Args {
+				if isSlice(a.Type()) || isMap(a.Type()) {
+					walk(a, dd+1)
+				}
+			}
+		case *ssa.MakeMap:
+			// a map on the derivation (ranged into the result, or handed to a helper)
+			found = true
+		case *ssa.UnOp:
+			walk(y.X, dd+1)
+		}
+	}
+	walk(v, 0)
+	return found, badCompact
 }
 
 // concatParts: v == slices.Concat(p1, p2, ...): the parts, else nil.
@@ -451,8 +600,36 @@ func ruleDistinct(w *World, r *Report, f *ssa.Function) {
 		}
 		if d.valueDistinct(f, ret.Results[0], 0) {
 			r.Add(Obligation{Rule: "DISTINCT", Key: "DISTINCT / " + key, Pos: w.Pos(ret.Pos()), Status: Discharged, Detail: "returned list is the key set of a map / result of a de-duplicating call", Canary: w.IsCanary(f)})
-		} else {
-			r.Add(Obligation{Rule: "DISTINCT", Key: "DISTINCT / " + key, Pos: w.Pos(ret.Pos()), Status: Violated, Detail: "returned list " + ret.Results[0].Name() + " does not pass through a de-duplication on this path (" + describeValue(ret.Results[0]) + ")", Canary: w.IsCanary(f)})
+			continue
+		}
+		// not proven.  Positive evidence of a violation: nothing on the way removes
+		// duplicates at all, or a Compact on an unsorted list; otherwise no verdict.
+		found, badCompact := true, ""
+		for _, leaf := range phiLeaves(resolve(ret.Results[0])) {
+			if ph, isPhi := leaf.(*ssa.Phi); isPhi && ph == resolve(ret.Results[0]) {
+				continue
+			}
+			if d.valueDistinct(f, leaf, 1) {
+				continue
+			}
+			f1, b1 := d.dedupConstructOnPath(f, leaf, 0, map[*ssa.Function]bool{})
+			if !f1 {
+				found = false // on this path nothing removes duplicates
+			}
+			if b1 != "" {
+				badCompact = b1
+			}
+		}
+		if badCompact == "" {
+			badCompact = d.weakDedup(f, ret.Results[0])
+		}
+		switch {
+		case badCompact != "":
+			r.Add(Obligation{Rule: "DISTINCT", Key: "DISTINCT / " + key, Pos: w.Pos(ret.Pos()), Status: Violated, Detail: "returned list " + ret.Results[0].Name() + " is not duplicate-free: " + badCompact, Canary: w.IsCanary(f)})
+		case !found:
+			r.Add(Obligation{Rule: "DISTINCT", Key: "DISTINCT / " + key, Pos: w.Pos(ret.Pos()), Status: Violated, Detail: "returned list " + ret.Results[0].Name() + " does not pass through a de-duplication on this path (" + describeValue(ret.Results[0]) + "), and nothing in its derivation removes duplicates", Canary: w.IsCanary(f)})
+		default:
+			r.Add(Obligation{Rule: "DISTINCT", Key: "DISTINCT / " + key, Pos: w.Pos(ret.Pos()), Status: Undecided, Detail: "returned list " + ret.Results[0].Name() + " (" + describeValue(ret.Results[0]) + ") could not be shown duplicate-free; its derivation does contain a de-duplicating construct the rule cannot verify", Canary: w.IsCanary(f)})
 		}
 	}
 	if n == 0 {
@@ -1359,7 +1536,16 @@ func ruleNoSkip(w *World, r *Report, fn string) {
 				}
 			}
 		}
-		reach := simulate(body, stop, func(ssa.Value) (bool, bool) { return false, false })
+		// an element may be left out when its group is already complete: a branch taken
+		// because a looked-up group reports IsDense() does not lose anything
+		denseSkip := func(cond ssa.Value) (bool, bool) {
+			c, ok := resolve(cond).(*ssa.Call)
+			if ok && calleeOf(c) != nil && calleeOf(c).Name() == "IsDense" {
+				return false, true // explore only the not-dense side
+			}
+			return false, false
+		}
+		reach := simulate(body, stop, denseSkip)
 		if reach[header] {
 			r.add("NOSKIP", key, w.Pos(header.Instrs[0].Pos()), Violated, "an iteration can return to the loop header without recording its element (the element is dropped on that path)")
 		} else {
@@ -1489,7 +1675,7 @@ func ruleCacheKey(w *World, r *Report, in map[*ssa.Function]bool) {
 						if cond != ssa.Value(okv) {
 							continue
 						}
-						if miss == call.Block() || blockDominatedByEdge(f, blk, miss, call.Block()) {
+						if blockDominatedByEdge(f, blk, miss, call.Block()) {
 							onMiss = true
 						}
 					}
@@ -1629,4 +1815,146 @@ func collectedKeys(c *ssa.Call) bool {
 	}
 	p2, n2 := stdCallName(kc)
 	return p2 == "maps" && n2 == "Keys"
+}
+
+// weakDedup: positive evidence that a de-duplication on the way to v does not
+// cover the whole result:
+//   - a seen-set that is re-created inside an enclosing loop (it forgets the
+//     elements of earlier iterations),
+//   - separately de-duplicated batches appended to one another with nothing
+//     making them disjoint,
+//   - a seen-set key that omits a varying component of the appended element.
+func (d *distinctEngine) weakDedup(f *ssa.Function, v ssa.Value) string {
+	ai := appendChain(v)
+	for _, ap := range ai.Appends {
+		elems, spread := appendedElems(ap)
+		// batches: append(acc, Unique(batch)...) where acc is itself accumulated
+		if spread != nil {
+			if c, ok := resolve(spread).(*ssa.Call); ok && (calleeIs(c, modPath+"/common", "Unique") || calleeIs(c, modPath+"/common", "Union")) {
+				base := appendChain(ap.Call.Args[0])
+				if len(base.Appends) > 0 || reachesItself(ap) {
+					if !d.excludes(f, spread, ap.Call.Args[0], 0) {
+						return "separately de-duplicated batches are appended to one another at " + d.w.Pos(ap.Pos()) + ": an ID that occurs in two batches is returned twice"
+					}
+				}
+			}
+		}
+		if len(elems) != 1 {
+			continue
+		}
+		el := elems[0]
+		// the seen-set lookup guarding this append
+		for _, blk := range f.Blocks {
+			_, _, ifi := ifSuccs(blk)
+			if ifi == nil || !(blk == ap.Block() || blk.Dominates(ap.Block())) {
+				continue
+			}
+			c := resolve(ifi.Cond)
+			if u, ok := c.(*ssa.UnOp); ok && u.Op == token.NOT {
+				c = resolve(u.X)
+			}
+			var lk *ssa.Lookup
+			switch y := c.(type) {
+			case *ssa.Extract:
+				lk, _ = y.Tuple.(*ssa.Lookup)
+			case *ssa.Lookup:
+				lk = y
+			}
+			if lk == nil {
+				continue
+			}
+			mm, ok := resolve(lk.X).(*ssa.MakeMap)
+			if !ok {
+				continue
+			}
+			// re-created inside a loop (the block of the make lies on a cycle) while the
+			// accumulator starts outside that cycle
+			if selfReach(mm.Block()) {
+				fromMM := reachableFrom(mm.Block(), nil)
+				inCycle := func(b *ssa.BasicBlock) bool {
+					return fromMM[b] && reachableFrom(b, nil)[mm.Block()]
+				}
+				acc := appendChain(ap.Call.Args[0])
+				outlives := false
+				for _, b := range acc.Bases {
+					if in, isIn := b.(ssa.Instruction); isIn && !inCycle(in.Block()) {
+						outlives = true
+					}
+					if _, isC := b.(*ssa.Const); isC {
+						outlives = true
+					}
+				}
+				if outlives && inCycle(ap.Block()) {
+					return "the seen-set guarding the append at " + d.w.Pos(ap.Pos()) + " is re-created in every iteration of an enclosing loop: duplicates across iterations are not removed"
+				}
+			}
+			// key components versus the varying parts of the appended element
+			if equivValue(lk.Index, el) {
+				continue
+			}
+			comps, okK := arrayLiteral(resolve(lk.Index))
+			if !okK {
+				comps, okK = structLiteralFields(resolve(lk.Index))
+			}
+			if !okK {
+				continue
+			}
+			parts := elementParts(d.w, f, el)
+			if len(parts) == 0 {
+				continue
+			}
+			var loopBlocks map[*ssa.BasicBlock]bool
+			for _, sr := range findSliceRanges(f) {
+				if sr.blocks()[ap.Block()] && (loopBlocks == nil || len(sr.blocks()) > len(loopBlocks)) {
+					loopBlocks = sr.blocks()
+				}
+			}
+			for _, p := range parts {
+				pi, isInstr := resolve(p).(ssa.Instruction)
+				if !isInstr || loopBlocks == nil || !loopBlocks[pi.Block()] {
+					continue // does not vary
+				}
+				inKey := false
+				for _, k := range comps {
+					if equivValue(k, p) {
+						inKey = true
+					}
+				}
+				if !inKey {
+					return "the seen-set key at " + d.w.Pos(lk.Pos()) + " does not contain " + describeValue(p) + ", a varying component of the appended element: different elements are taken for duplicates"
+				}
+			}
+		}
+	}
+	return ""
+}
+
+// elementParts: the values a struct element is made of (arguments of setter
+// calls on it, stores into its fields), when it is built in place.
+func elementParts(w *World, f *ssa.Function, el ssa.Value) []ssa.Value {
+	var al *ssa.Alloc
+	if ld, ok := loadOf(el); ok {
+		al, _ = ld.(*ssa.Alloc)
+	} else if a, ok := el.(*ssa.Alloc); ok {
+		al = a
+	}
+	if al == nil || al.Referrers() == nil {
+		return nil
+	}
+	var out []ssa.Value
+	for _, ref := range *al.Referrers() {
+		switch x := ref.(type) {
+		case *ssa.Call:
+			if g := calleeOf(x); g != nil && isSetter(w, g) && len(x.Call.Args) > 1 && x.Call.Args[0] == ssa.Value(al) {
+				out = append(out, x.Call.Args[1:]...)
+			}
+		case *ssa.FieldAddr:
+			for _, r2 := range *x.Referrers() {
+				if st, ok := r2.(*ssa.Store); ok && st.Addr == ssa.Value(x) {
+					out = append(out, st.Val)
+				}
+			}
+		}
+	}
+	return out
 }
